@@ -221,7 +221,8 @@ theorem vortex_rotate_eq_conj (mI ch sh c s cr sr : K) :
     vortex mI ch sh c s cr sr = ((rotTable cr (-sr)).mul (vortex mI ch sh c s 1 0)).mul (rotTable cr sr) := by
   simp only [vortex, gen_rot]
   apply M22.ext' <;>
-    simp only [Model.C20.rot, M22.mul, M22.add, M22.smul, M22.set, M22.zero, ofInt_eq] <;> push_cast <;> ring
+    simp only [Model.C20.vortex, Model.C20.sandwich, Model.C20.rot, M22.mul, M22.add, M22.smul, M22.set, M22.zero, ofInt_eq] <;>
+    push_cast <;> ring
 
 /-! ## Pauli decomposition -/
 
